@@ -26,6 +26,7 @@ Apply(i, r) ==
     [] i.op = "pub"     -> Pub
     [] i.op = "rshs"    -> RsHandshake(i.magic, i.lenn, i.sern, i.rsv) /\ wobs'.reply = r.hsreply /\ wobs'.closed = r.closed
     [] i.op = "rsbig"   -> RsTooBig
+    [] i.op = "cconnect" -> ClientConnect(r.kind, i.scheme, i.ser)
     [] i.op = "nop"     -> sphase = "closed" /\ UNCHANGED <<wvars, sphase, proto, origins>> /\ sobs' = NoSObs
 
 TrStep == /\ IsEvent("step")
